@@ -25,6 +25,7 @@ EXPLANATION = (
     "applies the map to a fresh composite; (7) attribute remaps compose with .get(k, default), so a remap to None is kept; (8) FRESHLIST: applying a map never rewrites a shard list shared with the wrapped widget's "
     "cached canvas (otherwise the wrapper's attributes are baked into the child and survive a later set_attr_map); (6) CUTATTR: the space replacing a cut wide character keeps the cut character's attribute."
     ' Added after seed round 3: (9) FOCUS-FWD over all widget modules - a focus map further down is applied exactly when the widget is in focus because every container / decoration passes the flag on; (10) ACCUM on the rle walkers that cut attribute runs.'
+    ' Round 4: (11) LOOPFRESH and (12) PAIRLEN on apply_text_layout / apply_target_encoding (attribute and charset run lengths are the length of the piece just appended); (13) no display code indexes a palette entry with a constant position.'
 )
 NOT_DECIDED = "Run-length alignment of attributes through layout and encoding, composition order of nested maps as a value statement, the SGR text produced for every AttrSpec and its decoding."
 ASSUMPTIONS = []
